@@ -15,6 +15,7 @@ KEYMAP = {
     'in-flight-': ['C12'], 'cwnd-': ['C12'],
     'datagram-exceeds-mtu': ['C13'], 'too-many-segments': ['C13'], 'mtu-': ['C13'], 'initial-too-small': ['C13'],
     'datagram-not-sent-or-duplicated': ['C16'], 'dgram-': ['C16'],
+    'path-challenge-unpadded': ['C13'], 'path-response-unpadded': ['C13'], 'loss-probe-oversized': ['C13'],
     'migration-': ['C15'], 'path-': ['C15'],
     'determinism-': ['C20'], 'shift-': ['C20'], 'spurious-': ['C20'], 'timeout-settle': ['C20'],
     'zero-rtt-': ['C17'],
